@@ -202,7 +202,13 @@ func c16(tier string) int {
 	prelude := []wh.Req{{LogID: lb.ID(), CP: cpB, Meta: mB, Label: "prelude: first use of log B"}}
 	states, trans := 0, int64(0)
 	for _, store := range []string{"mem", "sql"} {
-		alpha := wh.AlphaOpts{MaxN: n, Forged: true, RichProof: false, HugeOlds: true, Shapes: []string{"plain", "ext"}}
+		// bigextK: stored checkpoints of > 16 KiB, > 64 KiB and (thorough) close
+		// to the note format's 1 MB limit, read back through handler and client.
+		shapes := []string{"plain", "ext", "bigext17", "bigext70"}
+		if tier == "thorough" {
+			shapes = append(shapes, "bigext900")
+		}
+		alpha := wh.AlphaOpts{MaxN: n, Forged: true, RichProof: false, HugeOlds: true, Shapes: shapes}
 		fn := func(st wh.MState) []wh.Req {
 			reqs := wh.Alphabet(gen, la, st, alpha)
 			// Refused first submissions for log C (never has a checkpoint).
@@ -239,6 +245,6 @@ func c16(tier string) int {
 	run.Set("traces_validated_against_impl", trans)
 	run.Set("evaluations", trans)
 	run.Set("exhaustive", true)
-	run.Set("rule", fmt.Sprintf("explicit-state BFS over a three-log witness (IDs from the repository's origin-to-ID function; log B holds a checkpoint, log C never gets one and receives refused submissions), sizes 0..%d, both stores; after EVERY transition, through the router built by RegisterHandlers and through client/http.Witness: GET checkpoint of each log = 200 + exactly the stored bytes or 404 iff none, client returns the bytes / os.ErrNotExist, the log list decodes to exactly the logs with an accepted update; plus 20 unknown / odd IDs that must never be answered with a stored checkpoint. distinct_nontrivial = distinct (store, state before, state after)", n))
+	run.Set("rule", fmt.Sprintf("explicit-state BFS over a three-log witness (IDs from the repository's origin-to-ID function; log B holds a checkpoint, log C never gets one and receives refused submissions), sizes 0..%d, checkpoint shapes plain / two extension lines (with %% and non-ASCII) / 17 KiB, 70 KiB and (thorough) 900 KiB of extension lines, both stores; after EVERY transition, through the router built by RegisterHandlers and through client/http.Witness: GET checkpoint of each log = 200 + exactly the stored bytes or 404 iff none, client returns the bytes / os.ErrNotExist, the log list decodes to exactly the logs with an accepted update; plus 20 unknown / odd IDs that must never be answered with a stored checkpoint. distinct_nontrivial = distinct (store, state before, state after)", n))
 	return run.Finish()
 }
